@@ -67,10 +67,13 @@ def explore(body, contracts=None, cfg=None, max_paths=400, setup=None):
     return out
 
 
-def discharge(I, name_prefix, case, timeout_ms=20000, inputs=None, replay_fn=None, ladder=None, prefer=None):
+def discharge(I, name_prefix, case, timeout_ms=20000, inputs=None, replay_fn=None, ladder=None, prefer=None,
+              only=None, fallbacks=True):
     """Discharge the obligations collected on one path; returns plain-dict results."""
     res = []
     for ob in I.obls:
+        if only is not None and (name_prefix + ob.name) not in only and ob.kind != 'cover':
+            continue
         hyps = I.hyps[:ob.nhyps] + list(ob.extra)
         t0 = time.time()
         if ob.kind == 'cover':
@@ -80,9 +83,9 @@ def discharge(I, name_prefix, case, timeout_ms=20000, inputs=None, replay_fn=Non
             continue
         if ladder:
             groups = ladder(I, ob, hyps)
-            verdict, model, dt, be = solve.prove_ladder(groups, ob.goal, timeout_ms)
+            verdict, model, dt, be = solve.prove_ladder(groups, ob.goal, timeout_ms, fallbacks)
         else:
-            verdict, model, dt, be = solve.prove(hyps, ob.goal, timeout_ms)
+            verdict, model, dt, be = solve.prove(hyps, ob.goal, timeout_ms, fallbacks)
         r = {'name': name_prefix + ob.name, 'case': case, 'kind': ob.kind, 'verdict': verdict, 'secs': dt,
              'backend': be, 'lineno': ob.lineno, 'note': ob.note, 'path': list(I.trace)[-12:],
              'formula_size': len(hyps)}
